@@ -66,6 +66,15 @@ def run(ctx, rep):
     rep.guarded("R17-DEEP", lambda: r_deep(fl, sh, rep))
     rep.guarded("R17-FRESH", lambda: r_fresh(fl, sh, rep))
     rep.guarded("R17-STATIC", lambda: r_static(fl, rep))
+    # programs of different tests are built one after the other by one CodeGenerator: anything the generator carries from
+    # one program to the next (a table of helper terms, a memo of compiled fuzzers) is handed out as Rc clones to both.
+    # The channel is closed by C09's reset-completeness rule — every mutated field gets a fresh value in reset(), the one
+    # field kept on purpose is the Rc-free constant cache (R17-FRESH) — so that rule is part of this verdict too.
+    from . import c09
+    rep.rule("R09-RESET", "no generator state is carried from one test's program to the next, except the Rc-free constant cache (shared with C09)", floor=10)
+    rep.guarded("R09-RESET", lambda: c09.r_reset(fl, sh, rep))
+    rep.rule("R09-FINALIZE", "every generated program leaves through finalize, which resets the generator (shared with C09)", floor=2)
+    rep.guarded("R09-FINALIZE", lambda: c09.r_finalize(fl, sh, rep))
 
 
 def r_send(sh, rep):
